@@ -79,6 +79,13 @@ def errRule1 (m : Mag Val) : Json :=
 def dimVecOf (env : Env) (b : BU String) : List Rat :=
   specDimVec env (b.map (fun p => (p.1, p.2.toRat)))
 
+/-- specification of "a conversion to another linear unit": equal dimension vectors, or the
+    documented rule that a bare number is an angle in radians (no unit → first power of a
+    prefixed `rad`). Both multiply the value by the constant `f(from)/f(to)`. -/
+def linearConv (env : Env) (a b : BU String) : Bool :=
+  dimVecOf env a == dimVecOf env b ||
+  (a.isEmpty && BU.unitNames env b == ["rad"] && dimVecOf env b == [0, 0, 0, 0, 0, 0, 0, 1])
+
 def handleQ (j : Json) : Except String Json := do
   let env ← getEnv (← field j "env")
   let op ← (← field j "op").getStr?
@@ -113,7 +120,7 @@ def handleQ (j : Json) : Except String Json := do
     pure (Json.mkObj [("model", jexc (jqty env) (l.pow env p)), ("spec", spec)])
   | "to" => do
     let t ← getBU (← field j "t")
-    let same := dimVecOf env l.units == dimVecOf env t
+    let same := linearConv env l.units (BU.new t)
     let spec := if same then
         -- linear conversion: same base value, error scaled like the value
         let f : Val := l.units.magnitude env / BU.magnitude env t
@@ -121,10 +128,17 @@ def handleQ (j : Json) : Except String Json := do
           ("e", jopt jval (l.mag.error.map (fun e => e * f)))]
       else jstr "other"
     pure (Json.mkObj [("model", jexc (jqty env) (l.to env (BU.new t))), ("spec", spec)])
+  | "newq" => do
+    -- `Quantity(value, ref, abse)` : the unit is itself a (possibly uncertain) quantity `r`
+    let r ← getQty (← field j "r")
+    let kr := r.units.map Prod.fst
+    pure (Json.mkObj [("model", jqty env (Qty.newQ env l.mag r)),
+      ("spec", withErr (jspec env (bl * r.base env) kr r.units.expOf)
+        (specRule "mul" (l.baseMag env) (r.baseMag env)))])
   | "toq" => do
     -- conversion to a reference quantity `r` (value in multiples of `r`)
     let r ← getQty (← field j "r")
-    let same := dimVecOf env l.units == dimVecOf env r.units
+    let same := linearConv env l.units r.units
     let spec := if same then
         let f : Val := l.units.magnitude env / r.units.magnitude env
         let v := l.mag.value * f / r.mag.value
